@@ -282,7 +282,7 @@ pub mod harness {
         }
         Some((a, b))
     }
-    pub fn active_peers_history(ch: &mut Chooser) { // @EOBL [C04,C05] @BOUNDED every history of 4 operations (add / remove / remove_with_stable_id / subscribe) over 2 peers and 4 connections of either origin: after every step the listing has no duplicates, holds no closed connection, equals the strict replay of the event log (events alternate), a subscription snapshot plus later events reproduces the listing, every closed-and-unlisted connection is really closed, and each wrapper call is exactly one lock acquisition
+    pub fn active_peers_history(ch: &mut Chooser) { // @EOBL [C04,C05,C06] @BOUNDED every history of 4 operations (add / remove / remove_with_stable_id / subscribe) over 2 peers and 4 connections of either origin: after every step the listing has no duplicates, holds no closed connection, equals the strict replay of the event log (events alternate), a subscription snapshot plus later events reproduces the listing, every closed-and-unlisted connection is really closed, and each wrapper call is exactly one lock acquisition
         let ap = ActivePeers::new(8);
         let conns = [conn(0, P1, any_origin(ch)), conn(1, P1, any_origin(ch)), conn(2, P2, any_origin(ch)), conn(3, P1, any_origin(ch))];
         let mut added = [false; 4];
